@@ -128,6 +128,11 @@ def safe_modes(pieces, modes: str) -> str:
                    for p, m in zip(pieces, modes))
 
 
+def content_digest(f) -> str:
+    """The decoded content: all segments in order (an empty archive has none, however it is framed)."""
+    return ";".join(U.seg_digest(s) for c in f.chunks for s in c.archives)
+
+
 def oracle_archive(m, blob: bytes, rechunks=()) -> tuple[str, str] | None:
     """C05 stated on the implementation for one well-formed archive file `blob`;
     rechunks = [(cuts, modes)]."""
@@ -135,7 +140,7 @@ def oracle_archive(m, blob: bytes, rechunks=()) -> tuple[str, str] | None:
         f = m.IWAFile.from_buffer(blob)
     except Exception as e:  # noqa: BLE001
         return ("decode-raises", f"from_buffer raised {type(e).__name__}: {e}")
-    base = U.file_digest(f)
+    base = content_digest(f)
     raw = U.raw_stream(blob)
     try:
         out = f.to_buffer()
@@ -156,13 +161,13 @@ def oracle_archive(m, blob: bytes, rechunks=()) -> tuple[str, str] | None:
     mine = [(s.header.SerializeToString(), [o.SerializeToString() for o in s.objects]) for s in segs]
     if walked != mine:
         return ("header-length", "header lengths / message bytes of the encoded stream differ from the decoded objects")
-    if U.file_digest(m.IWAFile.from_buffer(out)) != base:
+    if content_digest(m.IWAFile.from_buffer(out)) != base:
         return ("roundtrip-objects", "decode(encode(decode(x))) differs from decode(x)")
     for cuts, modes in rechunks:
         ps = pieces_of(raw, cuts)
         try:
             g = m.IWAFile.from_buffer(U.frame_pieces(ps, modes))
-            dgst = U.file_digest(g)
+            dgst = content_digest(g)
         except Exception as e:  # noqa: BLE001
             return ("rechunk", f"cuts={cuts} modes={modes}: {type(e).__name__}: {e}")
         if dgst != base:
@@ -299,8 +304,12 @@ def run(ctx: Ctx) -> int:
     ctx.dist("synthetic_archives", len(syn))
     cache = {(fx, name): blob for fx, name, blob in allm}
 
+    import time
+    t1 = time.time()
     if exe:
         correspondence(ctx, m, exe, sample, syn)
+    common.log(f"C05: correspondence {time.time() - t1:.0f}s")
+    t1 = time.time()
 
     # 3. implementation-only oracle
     n_re = 0
@@ -332,6 +341,7 @@ def run(ctx: Ctx) -> int:
         if r:
             ctx.oracle_fail(r[0], case, r[1])
     ctx.dist("oracle_rechunkings", n_re)
+    common.log(f"C05: oracle {time.time() - t1:.0f}s")
     return common.finish(ctx, search)
 
 
